@@ -1,0 +1,42 @@
+//go:build verif
+// +build verif
+
+package backend
+
+// Hooks for the out-of-tree verification harness of property C05 (build tag verif).  Add-only.
+// They let a controller goroutine that HOLDS back.Lock() see that the balancer is queued on
+// back.RLock() (inside Avail()/ConnNum()) and change the fields before letting that one read through.
+
+import (
+	"reflect"
+	"sync/atomic"
+	"unsafe"
+)
+
+// rwmutexMaxReaders of sync/rwmutex.go
+const verifC05MaxReaders = 1 << 30
+
+// VerifC05RawSet writes avail / connNum WITHOUT taking the lock: the caller holds back.Lock().
+func (back *BfeBackend) VerifC05RawSet(setAvail bool, avail bool, setConn bool, connNum int) {
+	if setAvail {
+		back.avail = avail
+	}
+	if setConn {
+		back.connNum = connNum
+	}
+}
+
+// VerifC05ReaderWaiting reports whether a writer holds (or waits for) the lock and exactly one reader is queued,
+// i.e. sync.RWMutex.readerCount == -rwmutexMaxReaders + 1.  ok=false if the toolchain's RWMutex has another layout.
+func (back *BfeBackend) VerifC05ReaderWaiting() (waiting bool, ok bool) {
+	f := reflect.ValueOf(&back.RWMutex).Elem().FieldByName("readerCount")
+	if !f.IsValid() || f.Kind() != reflect.Struct {
+		return false, false
+	}
+	v := f.FieldByName("v")
+	if !v.IsValid() || v.Kind() != reflect.Int32 || !v.CanAddr() {
+		return false, false
+	}
+	c := atomic.LoadInt32((*int32)(unsafe.Pointer(v.UnsafeAddr())))
+	return c == -verifC05MaxReaders+1, true
+}
